@@ -458,7 +458,11 @@ class HelicityAmplitudeBuilder:
         amplitude = self.config.spin_alignment.formulate_amplitude(self.reaction)
         spin_projections = collect_spin_projections(self.reaction)
         self.__register_vanishing_amplitudes(spin_projections)
-        return PoolSum(sp.Abs(amplitude) ** 2, *spin_projections.items())
+        # sorted, because the iteration order of a set depends on PYTHONHASHSEED
+        sorted_spin_projections = [
+            (symbol, sorted(values)) for symbol, values in spin_projections.items()
+        ]
+        return PoolSum(sp.Abs(amplitude) ** 2, *sorted_spin_projections)
 
     def __register_vanishing_amplitudes(
         self, spin_projections: dict[sp.Symbol, set[sp.Rational]]
